@@ -236,6 +236,7 @@ pub fn c01(rep: &mut Report, tier: &str, seed: u64, prop: &'static str) {
         k(Key::Down),
         k(Key::Tab),
         k(Key::Lf),
+        k(Key::Cr),
     ];
     let cfgs: Vec<(usize, usize)> = if tier == "quick" {
         vec![(0, 0), (1, 0), (3, 0), (0, 4), (1, 4), (3, 4), (4, 0)]
